@@ -1335,27 +1335,8 @@ where
         }
     }
     if commas == 1 && elems == 1 {
-        let mut result = allocator.nil();
-        for &child in children.iter() {
-            let is_close = matches!(
-                ctx.arena.get(child),
-                mimium_lang::compiler::parser::green::GreenNode::Token { token_index, .. }
-                    if ctx.tokens[*token_index].kind == TokenKind::ParenEnd
-            );
-            let is_comma = matches!(
-                ctx.arena.get(child),
-                mimium_lang::compiler::parser::green::GreenNode::Token { token_index, .. }
-                    if ctx.tokens[*token_index].kind == TokenKind::Comma
-            );
-            if is_comma {
-                continue;
-            }
-            if is_close {
-                result = result.append(allocator.text(","));
-            }
-            result = result.append(cst_to_doc(child, ctx, allocator));
-        }
-        return result;
+        // the comma token itself is kept, with the comments attached to it
+        return print_leaf_children(children, ctx, allocator);
     }
     print_grouped_list(children, ctx, allocator, "(", ")")
 }
@@ -2726,6 +2707,17 @@ mod tests {
         assert_eq!(format(&first), first);
         let first = format("/* c */ { 1 }");
         assert_eq!(first, " /* c */ {\n    1\n}\n");
+        assert_eq!(format(&first), first);
+    }
+
+    #[test]
+    fn test_one_element_tuple_keeps_comments_of_its_comma() {
+        assert_eq!(format("let t = (1,)"), "let t = (1,)\n");
+        let first = format("let t = (1, /* c */)");
+        assert_eq!(first, "let t = (1, /* c */ )\n");
+        assert_eq!(format(&first), first);
+        let first = format("let t = (1 /* b */ , // c\n)");
+        assert_eq!(first, "let t = (1 /* b */ , // c\n)\n");
         assert_eq!(format(&first), first);
     }
 
